@@ -3,8 +3,254 @@ Lemmas/Auth — the inductive invariant of the accept-path transition system of 
 preservation by every event; reachability of the deterministic scheduler's states.
 -/
 import Teleport.Model.Auth
+import Teleport.Lemmas.Lifecycle
 namespace Teleport
 namespace Auth
+
+/-! ## the hub as a list: membership view of `AL.put` / `AL.del` / `AL.delIf` -/
+
+namespace HubL
+open Lifecycle
+
+/-- keys are pairwise distinct (what `LoadOrStore` / `Store` / `Delete` keep). -/
+def WF (h : Hub) : Prop := h.Pairwise fun a b => a.1 ≠ b.1
+
+theorem mem_put {h : Hub} {k v : Nat} {x : Nat × Nat} (hx : x ∈ AL.put h k v) : x = (k, v) ∨ x ∈ h := by
+  induction h with
+  | nil => simp [AL.put] at hx; exact .inl hx
+  | cons p t ih =>
+    obtain ⟨k', v'⟩ := p
+    by_cases hk : k' = k
+    · simp [AL.put, hk] at hx
+      rcases hx with e | m
+      · exact .inl e
+      · exact .inr (List.mem_cons_of_mem _ m)
+    · simp [AL.put, hk] at hx
+      rcases hx with e | m
+      · exact .inr (by rw [e]; exact List.mem_cons_self)
+      · rcases ih m with e | m'
+        · exact .inl e
+        · exact .inr (List.mem_cons_of_mem _ m')
+
+theorem mem_put_self (h : Hub) (k v : Nat) : (k, v) ∈ AL.put h k v := by
+  induction h with
+  | nil => simp [AL.put]
+  | cons p t ih =>
+    obtain ⟨k', v'⟩ := p
+    by_cases hk : k' = k <;> simp [AL.put, hk, ih]
+
+theorem del_eq_filter (h : Hub) (k : Nat) : AL.del h k = h.filter fun x => decide (x.1 ≠ k) := by
+  induction h with
+  | nil => simp [AL.del]
+  | cons p t ih =>
+    obtain ⟨k', v'⟩ := p
+    by_cases hk : k' = k <;> simp [AL.del, hk, ih]
+
+theorem mem_del {h : Hub} {k : Nat} {x : Nat × Nat} : x ∈ AL.del h k ↔ x ∈ h ∧ x.1 ≠ k := by
+  rw [del_eq_filter]; simp [List.mem_filter]
+
+theorem mem_delIf {h : Hub} {k v : Nat} {x : Nat × Nat} (hx : x ∈ AL.delIf h k v) : x ∈ h := by
+  unfold AL.delIf at hx
+  split at hx
+  · exact (mem_del.mp hx).1
+  · exact hx
+
+theorem wf_nil : WF [] := List.Pairwise.nil
+
+theorem wf_put {h : Hub} (w : WF h) (k v : Nat) : WF (AL.put h k v) := by
+  induction h with
+  | nil => simp [AL.put, WF]
+  | cons p t ih =>
+    obtain ⟨k', v'⟩ := p
+    have w' := List.pairwise_cons.mp w
+    by_cases hk : k' = k
+    · subst hk
+      simp only [AL.put, if_true]
+      exact List.pairwise_cons.mpr ⟨fun a ha => w'.1 a ha, w'.2⟩
+    · simp only [AL.put, hk, if_false]
+      refine List.pairwise_cons.mpr ⟨fun a ha => ?_, ih w'.2⟩
+      rcases mem_put ha with e | m
+      · rw [e]; exact hk
+      · exact w'.1 a m
+
+theorem wf_del {h : Hub} (w : WF h) (k : Nat) : WF (AL.del h k) := by
+  rw [del_eq_filter]; exact List.Pairwise.filter _ w
+
+theorem wf_delIf {h : Hub} (w : WF h) (k v : Nat) : WF (AL.delIf h k v) := by
+  unfold AL.delIf; split
+  · exact wf_del w k
+  · exact w
+
+theorem get_of_mem {h : Hub} (w : WF h) {k v : Nat} (hm : (k, v) ∈ h) : AL.get h k = some v := by
+  induction h with
+  | nil => simp at hm
+  | cons p t ih =>
+    obtain ⟨k', v'⟩ := p
+    have w' := List.pairwise_cons.mp w
+    rcases List.mem_cons.mp hm with e | m
+    · cases e; simp [AL.get]
+    · have hne : k' ≠ k := w'.1 (k, v) m
+      simp [AL.get, hne, ih w'.2 m]
+
+theorem mem_of_get {h : Hub} {k v : Nat} (hg : AL.get h k = some v) : (k, v) ∈ h := by
+  induction h with
+  | nil => simp [AL.get] at hg
+  | cons p t ih =>
+    obtain ⟨k', v'⟩ := p
+    by_cases hk : k' = k
+    · subst hk; simp [AL.get] at hg; subst hg; exact List.mem_cons_self
+    · simp [AL.get, hk] at hg; exact List.mem_cons_of_mem _ (ih hg)
+
+/-- `delete(id, sess)` leaves no entry `id ↦ sess`. -/
+theorem not_mem_delIf_self {h : Hub} (w : WF h) (k v : Nat) : (k, v) ∉ AL.delIf h k v := by
+  intro hm
+  have hg := get_of_mem w (mem_delIf hm)
+  unfold AL.delIf at hm
+  rw [if_pos hg] at hm
+  exact (mem_del.mp hm).2 rfl
+
+end HubL
+
+/-! ## `hubSet` / `hubDel` touch the hub (and `kicked`) only -/
+
+@[simp] theorem hubSet_lis (s : St) : (hubSet s).lis = s.lis := by unfold hubSet; split <;> rfl
+@[simp] theorem hubSet_strict (s : St) : (hubSet s).strict = s.strict := by unfold hubSet; split <;> rfl
+@[simp] theorem hubSet_status (s : St) : (hubSet s).status = s.status := by unfold hubSet; split <;> rfl
+@[simp] theorem hubSet_acc (s : St) : (hubSet s).acc = s.acc := by unfold hubSet; split <;> rfl
+@[simp] theorem hubSet_called (s : St) : (hubSet s).called = s.called := by unfold hubSet; split <;> rfl
+@[simp] theorem hubSet_exch (s : St) : (hubSet s).exch = s.exch := by unfold hubSet; split <;> rfl
+@[simp] theorem hubSet_recvLog (s : St) : (hubSet s).recvLog = s.recvLog := by unfold hubSet; split <;> rfl
+@[simp] theorem hubSet_authPassed (s : St) : (hubSet s).authPassed = s.authPassed := by unfold hubSet; split <;> rfl
+@[simp] theorem hubSet_sid (s : St) : (hubSet s).sid = s.sid := by unfold hubSet; split <;> rfl
+@[simp] theorem hubSet_ids (s : St) : (hubSet s).ids = s.ids := by unfold hubSet; split <;> rfl
+@[simp] theorem hubSet_arrived (s : St) : (hubSet s).arrived = s.arrived := by unfold hubSet; split <;> rfl
+@[simp] theorem hubSet_pending (s : St) : (hubSet s).pending = s.pending := by unfold hubSet; split <;> rfl
+@[simp] theorem hubSet_preRead (s : St) : (hubSet s).preRead = s.preRead := by unfold hubSet; split <;> rfl
+@[simp] theorem hubSet_loopRead (s : St) : (hubSet s).loopRead = s.loopRead := by unfold hubSet; split <;> rfl
+@[simp] theorem hubSet_cut (s : St) : (hubSet s).cut = s.cut := by unfold hubSet; split <;> rfl
+@[simp] theorem hubSet_rd (s : St) : (hubSet s).rd = s.rd := by unfold hubSet; split <;> rfl
+@[simp] theorem hubSet_hs (s : St) : (hubSet s).hs = s.hs := by unfold hubSet; split <;> rfl
+@[simp] theorem hubSet_closer (s : St) : (hubSet s).closer = s.closer := by unfold hubSet; split <;> rfl
+@[simp] theorem hubSet_wantClose (s : St) : (hubSet s).wantClose = s.wantClose := by unfold hubSet; split <;> rfl
+@[simp] theorem hubSet_handlerCount (s : St) : (hubSet s).handlerCount = s.handlerCount := by unfold hubSet; split <;> rfl
+@[simp] theorem hubSet_hookCount (s : St) : (hubSet s).hookCount = s.hookCount := by unfold hubSet; split <;> rfl
+@[simp] theorem hubSet_prhCount (s : St) : (hubSet s).prhCount = s.prhCount := by unfold hubSet; split <;> rfl
+@[simp] theorem hubSet_discHook (s : St) : (hubSet s).discHook = s.discHook := by unfold hubSet; split <;> rfl
+@[simp] theorem hubSet_out (s : St) : (hubSet s).out = s.out := by unfold hubSet; split <;> rfl
+@[simp] theorem hubSet_sockClosed (s : St) : (hubSet s).sockClosed = s.sockClosed := by unfold hubSet; split <;> rfl
+@[simp] theorem hubSet_nops (s : St) : (hubSet s).nops = s.nops := by unfold hubSet; split <;> rfl
+@[simp] theorem hubSet_renamed (s : St) : (hubSet s).renamed = s.renamed := by unfold hubSet; split <;> rfl
+@[simp] theorem hubSet_peeks (s : St) : (hubSet s).peeks = s.peeks := by unfold hubSet; split <;> rfl
+@[simp] theorem hubDel_lis (s : St) : (hubDel s).lis = s.lis := rfl
+@[simp] theorem hubDel_strict (s : St) : (hubDel s).strict = s.strict := rfl
+@[simp] theorem hubDel_status (s : St) : (hubDel s).status = s.status := rfl
+@[simp] theorem hubDel_acc (s : St) : (hubDel s).acc = s.acc := rfl
+@[simp] theorem hubDel_called (s : St) : (hubDel s).called = s.called := rfl
+@[simp] theorem hubDel_exch (s : St) : (hubDel s).exch = s.exch := rfl
+@[simp] theorem hubDel_recvLog (s : St) : (hubDel s).recvLog = s.recvLog := rfl
+@[simp] theorem hubDel_authPassed (s : St) : (hubDel s).authPassed = s.authPassed := rfl
+@[simp] theorem hubDel_sid (s : St) : (hubDel s).sid = s.sid := rfl
+@[simp] theorem hubDel_ids (s : St) : (hubDel s).ids = s.ids := rfl
+@[simp] theorem hubDel_arrived (s : St) : (hubDel s).arrived = s.arrived := rfl
+@[simp] theorem hubDel_pending (s : St) : (hubDel s).pending = s.pending := rfl
+@[simp] theorem hubDel_preRead (s : St) : (hubDel s).preRead = s.preRead := rfl
+@[simp] theorem hubDel_loopRead (s : St) : (hubDel s).loopRead = s.loopRead := rfl
+@[simp] theorem hubDel_cut (s : St) : (hubDel s).cut = s.cut := rfl
+@[simp] theorem hubDel_rd (s : St) : (hubDel s).rd = s.rd := rfl
+@[simp] theorem hubDel_hs (s : St) : (hubDel s).hs = s.hs := rfl
+@[simp] theorem hubDel_closer (s : St) : (hubDel s).closer = s.closer := rfl
+@[simp] theorem hubDel_wantClose (s : St) : (hubDel s).wantClose = s.wantClose := rfl
+@[simp] theorem hubDel_handlerCount (s : St) : (hubDel s).handlerCount = s.handlerCount := rfl
+@[simp] theorem hubDel_hookCount (s : St) : (hubDel s).hookCount = s.hookCount := rfl
+@[simp] theorem hubDel_prhCount (s : St) : (hubDel s).prhCount = s.prhCount := rfl
+@[simp] theorem hubDel_discHook (s : St) : (hubDel s).discHook = s.discHook := rfl
+@[simp] theorem hubDel_out (s : St) : (hubDel s).out = s.out := rfl
+@[simp] theorem hubDel_sockClosed (s : St) : (hubDel s).sockClosed = s.sockClosed := rfl
+@[simp] theorem hubDel_nops (s : St) : (hubDel s).nops = s.nops := rfl
+@[simp] theorem hubDel_renamed (s : St) : (hubDel s).renamed = s.renamed := rfl
+@[simp] theorem hubDel_peeks (s : St) : (hubDel s).peeks = s.peeks := rfl
+@[simp] theorem hubDel_kicked (s : St) : (hubDel s).kicked = s.kicked := rfl
+@[simp] theorem hubSet_hub (s : St) : (hubSet s).hub = Lifecycle.AL.put s.hub s.sid 0 := by unfold hubSet; split <;> rfl
+@[simp] theorem hubDel_hub (s : St) : (hubDel s).hub = Lifecycle.AL.delIf s.hub s.sid 0 := rfl
+@[simp] theorem hubSet_messageHookCount (s : St) : (hubSet s).messageHookCount = s.messageHookCount := by simp [St.messageHookCount]
+
+/-! ## the hub invariant: distinct keys, this connection listed under its current id only -/
+
+theorem inHub_false_iff (s : St) : s.inHub = false ↔ ∀ x ∈ s.hub, x.2 ≠ 0 := by
+  simp [St.inHub]
+
+theorem inHub_true_iff (s : St) : s.inHub = true ↔ ∃ x ∈ s.hub, x.2 = 0 := by
+  simp [St.inHub]
+
+structure HInv (s : St) : Prop where
+  wf : HubL.WF s.hub
+  selfAt : ∀ x ∈ s.hub, x.2 = 0 → x.1 = s.sid
+  cur : s.ids.getLast? = some s.sid
+
+theorem hinv_same {s t : St} (h : HInv s) (h1 : t.hub = s.hub) (h2 : t.sid = s.sid) (h3 : t.ids = s.ids) :
+    HInv t := ⟨by rw [h1]; exact h.wf, by rw [h1, h2]; exact h.selfAt, by rw [h2, h3]; exact h.cur⟩
+
+theorem hinv_put {s t : St} (h : HInv s) (h1 : t.hub = Lifecycle.AL.put s.hub s.sid 0) (h2 : t.sid = s.sid)
+    (h3 : t.ids = s.ids) : HInv t := by
+  refine ⟨by rw [h1]; exact HubL.wf_put h.wf _ _, ?_, by rw [h2, h3]; exact h.cur⟩
+  rw [h1, h2]
+  intro x hx h0
+  rcases HubL.mem_put hx with e | m
+  · rw [e]
+  · exact h.selfAt x m h0
+
+theorem hinv_delIf {s t : St} (h : HInv s) (h1 : t.hub = Lifecycle.AL.delIf s.hub s.sid 0) (h2 : t.sid = s.sid)
+    (h3 : t.ids = s.ids) : HInv t := by
+  refine ⟨by rw [h1]; exact HubL.wf_delIf h.wf _ _, ?_, by rw [h2, h3]; exact h.cur⟩
+  rw [h1, h2]
+  intro x hx h0
+  exact h.selfAt x (HubL.mem_delIf hx) h0
+
+/-- after `sessHub.delete(s.ID(), s)` no entry refers to this connection — under any id. -/
+theorem unlisted_delIf {s : St} (h : HInv s) : ∀ x ∈ Lifecycle.AL.delIf s.hub s.sid 0, x.2 ≠ 0 := by
+  intro x hx h0
+  have hm := HubL.mem_delIf hx
+  have hk := h.selfAt x hm h0
+  have : x = (s.sid, 0) := by cases x; simp_all
+  rw [this] at hx
+  exact HubL.not_mem_delIf_self h.wf _ _ hx
+
+/-- `SetID(v)` on a session in Preparing / Ok: `hub.set` under the new id, `hub.delete(old, s)`. -/
+theorem hinv_setId {s : St} (h : HInv s) (v : Nat) (k : List Nat) (n : Nat) (b : Bool) :
+    HInv { s with sid := v, ids := s.ids ++ [v], nops := n, renamed := b, kicked := k,
+                  hub := Lifecycle.AL.delIf (Lifecycle.AL.put s.hub v 0) s.sid 0 } := by
+  have wp := HubL.wf_put h.wf v 0
+  refine ⟨HubL.wf_delIf wp _ _, ?_, by simp⟩
+  intro x hx h0
+  show x.1 = v
+  have hm := HubL.mem_delIf hx
+  rcases HubL.mem_put hm with e | m
+  · rw [e]
+  · have hk := h.selfAt x m h0
+    have : x = (s.sid, 0) := by cases x; simp_all
+    rw [this] at hx
+    exact absurd hx (HubL.not_mem_delIf_self wp _ _)
+
+theorem hubOf_owner (l : List Nat) (o : Nat) (h : Hub) (w : HubL.WF h) (hz : ∀ x ∈ h, x.2 ≠ 0) :
+    HubL.WF (hubOf l o h) ∧ ∀ x ∈ hubOf l o h, x.2 ≠ 0 := by
+  induction l generalizing o h with
+  | nil => exact ⟨w, hz⟩
+  | cons id r ih =>
+    simp only [hubOf]
+    refine ih (o + 1) _ (HubL.wf_put w _ _) ?_
+    intro x hx
+    rcases HubL.mem_put hx with e | m
+    · rw [e]; simp
+    · exact hz x m
+
+theorem hinv_init (lis strict : Bool) (others : List Nat) : HInv (init lis strict others) := by
+  have := hubOf_owner others 0 [] HubL.wf_nil (by simp)
+  exact ⟨this.1, fun x hx h0 => absurd h0 (this.2 x hx), rfl⟩
+
+theorem init_unlisted (lis strict : Bool) (others : List Nat) : (init lis strict others).inHub = false := by
+  rw [inHub_false_iff]
+  exact (hubOf_owner others 0 [] HubL.wf_nil (by simp)).2
+
 
 /-- accept-thread positions after a successful `postAccept` branch. -/
 def APc.passed : APc → Bool
@@ -25,19 +271,21 @@ def rejInv (s : St) : Prop :=
     s.status = .preparing ∧ s.closer = none ∧ s.sockClosed = false ∧ s.discHook = 0
   | .rejClosing st => st ≠ 0 ∧
     match s.closer with
-    | some .hubdel | some .notify | some .waitCtx | some .setClosed =>
-      s.status = .activeClosing ∧ s.sockClosed = false ∧ s.discHook = 0
-    | some .sockClose => s.status = .activeClosed ∧ s.sockClosed = false ∧ s.discHook = 0
-    | some .hook => s.status = .activeClosed ∧ s.sockClosed = true ∧ s.discHook = 0
-    | none => s.status = .activeClosed ∧ s.sockClosed = true ∧ s.discHook = 1
+    | some .hubdel => s.status = .activeClosing ∧ s.sockClosed = false ∧ s.discHook = 0
+    | some .notify | some .waitCtx | some .setClosed =>
+      s.status = .activeClosing ∧ s.sockClosed = false ∧ s.discHook = 0 ∧ s.inHub = false
+    | some .sockClose => s.status = .activeClosed ∧ s.sockClosed = false ∧ s.discHook = 0 ∧ s.inHub = false
+    | some .hook => s.status = .activeClosed ∧ s.sockClosed = true ∧ s.discHook = 0 ∧ s.inHub = false
+    | none => s.status = .activeClosed ∧ s.sockClosed = true ∧ s.discHook = 1 ∧ s.inHub = false
   | .done st => st ≠ 0 ∧
-    s.closer = none ∧ s.status = .activeClosed ∧ s.sockClosed = true ∧ s.discHook = 1
+    s.closer = none ∧ s.status = .activeClosed ∧ s.sockClosed = true ∧ s.discHook = 1 ∧ s.inHub = false
   | _ => True
 
-/-- nothing of the session machinery has run. -/
+/-- nothing of the session machinery has run; the session is listed only if the checker function
+    itself renamed it (`SetID` enters a session that is being prepared in the hub). -/
 def quiet (s : St) : Prop :=
   s.handlerCount = 0 ∧ s.hookCount = 0 ∧ s.prhCount = 0 ∧ s.rd = none ∧ s.hs = [] ∧
-  s.wantClose = 0 ∧ s.loopRead = [] ∧ s.inHub = false ∧ s.status ≠ .ok ∧
+  s.wantClose = 0 ∧ s.loopRead = [] ∧ (s.renamed = false → s.inHub = false) ∧ s.status ≠ .ok ∧
   ∀ o ∈ s.out, ∃ c, o = .authReply c
 
 structure SInv (s : St) : Prop where
@@ -51,8 +299,10 @@ structure SInv (s : St) : Prop where
   strict_ok : s.strict = true → s.acc.accepting = true → s.recvLog = [.ok]
   rej : s.authPassed = false → rejInv s
 
-theorem sinv_init (lis strict : Bool) : SInv (init lis strict) := by
+theorem sinv_init (lis strict : Bool) (others : List Nat := []) : SInv (init lis strict others) := by
+  have hu := init_unlisted lis strict others
   refine ⟨rfl, ?_, rfl, ?_, rfl, ?_, ?_, ?_, ?_⟩ <;> simp [init, quiet, rejInv, APc.accepting, APc.passed]
+  exact hu
 
 theorem recvCheck_ok {f : Frame} (h : recvCheck f = .ok) : f.kind = .authCall ∧ f.stOk = true := by
   unfold recvCheck at h
@@ -71,6 +321,22 @@ theorem sinv_of_passed {s t : St} (h : SInv s) (hp : s.authPassed = true)
     by rw [h6, h4]; exact h.pre_len, h8, by rw [h3, h5]; exact h.log_called,
     by rw [h5, h6]; exact h.log_ok, by rw [h7, h2, h5]; exact h.strict_ok, fun c => by simp [hq] at c⟩
 
+/-- `quiet` only looks at these fields. -/
+theorem quiet_keep {s t : St} (q : quiet s) (h1 : t.handlerCount = s.handlerCount)
+    (h2 : t.hookCount = s.hookCount) (h3 : t.prhCount = s.prhCount) (h4 : t.rd = s.rd) (h5 : t.hs = s.hs)
+    (h6 : t.wantClose = s.wantClose) (h7 : t.loopRead = s.loopRead) (h8 : t.renamed = s.renamed)
+    (h9 : t.hub = s.hub) (h10 : t.status ≠ .ok) (h11 : t.out = s.out) : quiet t := by
+  simp only [quiet, St.inHub] at q ⊢
+  rw [h1, h2, h3, h4, h5, h6, h7, h8, h9, h11]
+  exact ⟨q.1, q.2.1, q.2.2.1, q.2.2.2.1, q.2.2.2.2.1, q.2.2.2.2.2.1, q.2.2.2.2.2.2.1, q.2.2.2.2.2.2.2.1, h10,
+    q.2.2.2.2.2.2.2.2.2⟩
+
+theorem sinv_hubSet {s : St} (h : SInv s) (hp : s.authPassed = true) : SInv (hubSet s) := by
+  apply sinv_of_passed h hp <;> simp [h.conserve]
+
+theorem sinv_hubDel {s : St} (h : SInv s) (hp : s.authPassed = true) : SInv (hubDel s) := by
+  apply sinv_of_passed h hp <;> simp [h.conserve]
+
 theorem passed_of_rd {s : St} (h : SInv s) {r : RPc} (hr : s.rd = some r) : s.authPassed = true := by
   cases hq : s.authPassed with
   | true => rfl
@@ -87,16 +353,16 @@ theorem inv_arrive {s t : St} {i : Item} (h : SInv s) (hs : step s (.arrive i) =
   · simp at hs
   · simp at hs; subst hs
     refine ⟨h.passed_iff, ?_, h.exch_eq, h.pre_len, ?_, h.log_called, h.log_ok, h.strict_ok, ?_⟩
-    · intro c; have := h.quiet c; simpa [quiet] using this
+    · intro c; have := h.quiet c; simpa [quiet, St.inHub] using this
     · simp [h.conserve]
-    · intro c; have := h.rej c; simpa [rejInv] using this
+    · intro c; have := h.rej c; simpa [rejInv, St.inHub] using this
 
 theorem inv_cut {s t : St} (h : SInv s) (hs : step s .cut = some t) : SInv t := by
   simp only [step] at hs
   simp at hs; subst hs
   refine ⟨h.passed_iff, ?_, h.exch_eq, h.pre_len, h.conserve, h.log_called, h.log_ok, h.strict_ok, ?_⟩
-  · intro c; have := h.quiet c; simpa [quiet] using this
-  · intro c; have := h.rej c; simpa [rejInv] using this
+  · intro c; have := h.quiet c; simpa [quiet, St.inHub] using this
+  · intro c; have := h.rej c; simpa [rejInv, St.inHub] using this
 
 theorem startClose_gate (s : St) :
     (startClose s).authPassed = s.authPassed ∧ (startClose s).acc = s.acc ∧
@@ -178,16 +444,7 @@ theorem inv_appClose {s t : St} (h : SInv s) (hs : evAppClose s = some t) : SInv
   · split at hs
     · rename_i hg
       simp at hs; subst hs
-      have hp : s.authPassed = true := by
-        cases hq : s.authPassed with
-        | true => rfl
-        | false =>
-          have q := h.quiet hq
-          have p := h.passed_iff
-          rw [hq] at p
-          rcases (by simpa using hg : s.inHub = true ∨ s.acc = .done 0) with c | c
-          · simp [q.2.2.2.2.2.2.2.1] at c
-          · rw [c] at p; simp [APc.passed] at p
+      have hp : s.authPassed = true := (by simpa using hg : s.authPassed = true ∧ _).1
       have g := startClose_gate s
       apply sinv_of_passed h hp g.1 g.2.1 g.2.2.1 g.2.2.2.1 g.2.2.2.2.1 g.2.2.2.2.2.1 g.2.2.2.2.2.2.1
       rw [g.2.2.2.2.2.2.2.1, g.2.2.2.2.2.1, g.2.2.2.2.2.2.2.2.1, g.2.2.2.2.2.2.2.2.2]; exact h.conserve
@@ -229,7 +486,7 @@ theorem inv_recvOnce {s t : St} {b : Bool} (h : SInv s) (hs : evRecvOnce s b = s
       have hne : s.recvLog ≠ [] := fun c => by
         have := h.log_called.2 c; simp [hc] at this
       refine ⟨h.passed_iff, ?_, h.exch_eq, h.pre_len, h.conserve, ?_, ?_, ?_, ?_⟩
-      · intro c; have := h.quiet c; simpa [quiet] using this
+      · intro c; have := h.quiet c; simpa [quiet, St.inHub] using this
       · simp [hc]
       · intro c
         simp only at c
@@ -237,7 +494,7 @@ theorem inv_recvOnce {s t : St} {b : Bool} (h : SInv s) (hs : evRecvOnce s b = s
         | nil => exact absurd hl hne
         | cons a r => rw [hl] at c; cases r <;> simp at c
       · intro _ c; simp [ha, APc.accepting, APc.passed] at c
-      · intro c; have := h.rej c; simpa [rejInv] using this
+      · intro c; have := h.rej c; simpa [rejInv, St.inHub] using this
     · rename_i hc
       have hc' : s.called = false := by simpa using hc
       have hlog : s.recvLog = [] := h.log_called.1 hc'
@@ -252,13 +509,13 @@ theorem inv_recvOnce {s t : St} {b : Bool} (h : SInv s) (hs : evRecvOnce s b = s
                         preRead := pre, pending := pend } := by
         intro res pre pend h1 h2 h3
         refine ⟨h.passed_iff, ?_, ?_, ?_, h3, ?_, ?_, ?_, ?_⟩
-        · intro c; have := h.quiet c; simpa [quiet] using this
+        · intro c; have := h.quiet c; simpa [quiet, St.inHub] using this
         · simp [hex]
         · simpa [hex] using h2
         · simp
         · intro c; simp [hlog] at c; exact h1 c
         · intro _ c; simp [ha, APc.accepting, APc.passed] at c
-        · intro c; have := h.rej c; simpa [rejInv] using this
+        · intro c; have := h.rej c; simpa [rejInv, St.inHub] using this
       split at hs
       · rename_i c; simp [hst] at c
       split at hs
@@ -292,13 +549,13 @@ theorem inv_ckReturn {s t : St} {v : Verdict} (h : SInv s) (hs : evCkReturn s v 
     · rename_i hg
       simp at hs; subst hs
       refine ⟨by simp [hnp, APc.passed], ?_, h.exch_eq, h.pre_len, h.conserve, h.log_called, h.log_ok, ?_, ?_⟩
-      · intro c; have := h.quiet c; simpa [quiet] using this
+      · intro c; have := h.quiet c; simpa [quiet, St.inHub] using this
       · intro hs' c
         simp [APc.accepting] at c
         simp at hs'
         simp [hs', c] at hg
         exact hg
-      · intro c; have := h.rej c; simp [rejInv, ha] at this; simpa [rejInv] using this
+      · intro c; have := h.rej c; simp [rejInv, ha] at this; simpa [rejInv, St.inHub] using this
 
 theorem inv_sendReply {s t : St} {w : Int} (h : SInv s) (hs : evSendReply s w = some t) : SInv t := by
   unfold evSendReply at hs
@@ -313,7 +570,7 @@ theorem inv_sendReply {s t : St} {w : Int} (h : SInv s) (hs : evSendReply s w = 
       refine ⟨by simp [hnp, APc.passed], ?_, h.exch_eq, h.pre_len, h.conserve, h.log_called, h.log_ok, ?_, ?_⟩
       · intro c
         have q := h.quiet hnp
-        simpa [quiet] using q
+        simpa [quiet, St.inHub] using q
       · intro hs' c
         simp [APc.accepting] at c
       · intro c
@@ -371,16 +628,20 @@ theorem inv_branch {s t : St} (h : SInv s) (hs : evBranch s = some t) : SInv t :
       simp only [startClose, r.1]
       simp
       refine ⟨by simp [hnp, APc.passed], ?_, h.exch_eq, h.pre_len, h.conserve, h.log_called, h.log_ok, ?_, ?_⟩
-      · intro _; simp only [quiet] at q ⊢; simp [q]; exact q.2.2.2.2.2.2.2.2.2
+      · intro _; exact quiet_keep q rfl rfl rfl rfl rfl rfl rfl rfl rfl (by simp) rfl
       · intro _ c; simp [APc.accepting, APc.passed] at c
       · intro _; simp [rejInv, hst', r]
     · rename_i hst
       have hst' : st = 0 := by simpa using hst
       have hacc : s.acc.accepting = true := by simp [ha, APc.accepting, hst']
-      split at hs <;>
-        (simp at hs; subst hs
-         exact ⟨by simp [APc.passed], fun c => by simp at c, h.exch_eq, h.pre_len, h.conserve, h.log_called,
-           h.log_ok, fun hs' _ => h.strict_ok hs' hacc, fun c => by simp at c⟩)
+      split at hs
+      · simp at hs; subst hs
+        refine sinv_hubSet ?_ rfl
+        exact ⟨by simp [APc.passed], fun c => by simp at c, h.exch_eq, h.pre_len, h.conserve, h.log_called,
+           h.log_ok, fun hs' _ => h.strict_ok hs' hacc, fun c => by simp at c⟩
+      · simp at hs; subst hs
+        exact ⟨by simp [APc.passed], fun c => by simp at c, h.exch_eq, h.pre_len, h.conserve, h.log_called,
+           h.log_ok, fun hs' _ => h.strict_ok hs' hacc, fun c => by simp at c⟩
   · simp at hs
 
 theorem inv_accStep {s t : St} (h : SInv s) (hs : evAccStep s = some t) : SInv t := by
@@ -402,13 +663,15 @@ theorem inv_accStep {s t : St} (h : SInv s) (hs : evAccStep s = some t) : SInv t
   · rename_i ha; simp at hs; subst hs
     exact passedCase _ .okSpawned ha rfl rfl _ rfl rfl rfl rfl rfl rfl rfl h.conserve
   · rename_i ha; simp at hs; subst hs
-    exact passedCase _ (.done 0) ha rfl rfl _ rfl rfl rfl rfl rfl rfl rfl h.conserve
+    exact passedCase _ (.done 0) ha rfl rfl _ (by simp) (by simp) (by simp) (by simp) (by simp) (by simp)
+      (by simp) (by simp [h.conserve])
   · rename_i ha
     split at hs
     · simp at hs; subst hs
       exact passedCase _ .lisSet ha rfl rfl _ rfl rfl rfl rfl rfl rfl rfl h.conserve
     · simp at hs; subst hs
-      exact passedCase _ (.done 0) ha rfl rfl _ rfl rfl rfl rfl rfl rfl rfl h.conserve
+      exact passedCase _ (.done 0) ha rfl rfl _ (by simp) (by simp) (by simp) (by simp) (by simp) (by simp)
+        (by simp) (by simp [h.conserve])
   · rename_i ha; simp at hs; subst hs
     exact passedCase _ (.done 0) ha rfl rfl _ rfl rfl rfl rfl rfl rfl rfl h.conserve
   · rename_i st ha
@@ -427,12 +690,14 @@ theorem inv_accStep {s t : St} (h : SInv s) (hs : evAccStep s = some t) : SInv t
       simp only at r
       have hst : (st == 0) = false := by simpa using r.1
       refine ⟨by simp [hnp, APc.passed, hst], ?_, h.exch_eq, h.pre_len, h.conserve, h.log_called, h.log_ok, ?_, ?_⟩
-      · intro _; simpa [quiet] using q
+      · intro _; simpa [quiet, St.inHub] using q
       · intro _ c; simp [APc.accepting, APc.passed, hst] at c
-      · intro _; simp [rejInv, r, hc']
+      · intro _; simp only [rejInv]; exact ⟨r.1, hc', r.2.1, r.2.2.1, r.2.2.2.1, r.2.2.2.2⟩
   · simp at hs
 
-theorem inv_closeStep {s t : St} (h : SInv s) (hs : evCloseStep s = some t) : SInv t := by
+theorem inHub_eq {s t : St} (h : t.hub = s.hub) : t.inHub = s.inHub := by simp [St.inHub, h]
+
+theorem inv_closeStep {s t : St} (h : SInv s) (hh : HInv s) (hs : evCloseStep s = some t) : SInv t := by
   cases hp : s.authPassed with
   | true =>
     unfold evCloseStep at hs
@@ -473,24 +738,95 @@ theorem inv_closeStep {s t : St} (h : SInv s) (hs : evCloseStep s = some t) : SI
       rename_i hc
       rw [hc] at r
       simp only at r
+    · -- `sessHub.delete(s.ID(), s)`: whatever id the checker gave the session, the entry goes
+      simp at hs; subst hs
+      have hu : (hubDel { s with closer := some .notify }).inHub = false :=
+        (inHub_false_iff _).2 (unlisted_delIf (hinv_same hh rfl rfl rfl))
+      refine mk _ hp ha rfl rfl rfl rfl rfl rfl rfl rfl ?_ ?_
+      · simp only [quiet] at q ⊢
+        exact ⟨q.1, q.2.1, q.2.2.1, q.2.2.2.1, q.2.2.2.2.1, q.2.2.2.2.2.1, q.2.2.2.2.2.2.1, fun _ => hu,
+          q.2.2.2.2.2.2.2.2.1, q.2.2.2.2.2.2.2.2.2⟩
+      · simp only [rejInv, hubDel_acc, hubDel_closer, ha]
+        exact ⟨r.1, r.2.1, r.2.2.1, r.2.2.2, hu⟩
     · simp at hs; subst hs
-      exact mk _ hp ha rfl rfl rfl rfl rfl rfl rfl rfl (by simp only [quiet] at q ⊢; simp [q]; exact q.2.2.2.2.2.2.2.2.2) (by simp [rejInv, ha, r])
-    · simp at hs; subst hs
-      exact mk _ hp ha rfl rfl rfl rfl rfl rfl rfl rfl (by simpa [quiet] using q) (by simp [rejInv, ha, r])
+      refine mk _ hp ha rfl rfl rfl rfl rfl rfl rfl rfl (quiet_keep q rfl rfl rfl rfl rfl rfl rfl rfl rfl q.2.2.2.2.2.2.2.2.1 rfl) ?_
+      simp only [rejInv, ha]; exact ⟨r.1, r.2.1, r.2.2.1, r.2.2.2.1, r.2.2.2.2⟩
     · split at hs
       · simp at hs; subst hs
-        exact mk _ hp ha rfl rfl rfl rfl rfl rfl rfl rfl (by simpa [quiet] using q) (by simp [rejInv, ha, r])
+        refine mk _ hp ha rfl rfl rfl rfl rfl rfl rfl rfl (quiet_keep q rfl rfl rfl rfl rfl rfl rfl rfl rfl q.2.2.2.2.2.2.2.2.1 rfl) ?_
+        simp only [rejInv, ha]; exact ⟨r.1, r.2.1, r.2.2.1, r.2.2.2.1, r.2.2.2.2⟩
       · simp at hs
     · simp at hs; subst hs
-      exact mk _ hp ha rfl rfl rfl rfl rfl rfl rfl rfl
-        (by simp only [quiet] at q ⊢; simp [q]; exact q.2.2.2.2.2.2.2.2.2) (by simp [rejInv, ha, r])
+      refine mk _ hp ha rfl rfl rfl rfl rfl rfl rfl rfl (quiet_keep q rfl rfl rfl rfl rfl rfl rfl rfl rfl (by simp) rfl) ?_
+      simp only [rejInv, ha]; exact ⟨r.1, trivial, r.2.2.1, r.2.2.2.1, r.2.2.2.2⟩
     · simp at hs; subst hs
-      exact mk _ hp ha rfl rfl rfl rfl rfl rfl rfl rfl (by simpa [quiet] using q) (by simp [rejInv, ha, r])
+      refine mk _ hp ha rfl rfl rfl rfl rfl rfl rfl rfl (quiet_keep q rfl rfl rfl rfl rfl rfl rfl rfl rfl q.2.2.2.2.2.2.2.2.1 rfl) ?_
+      simp only [rejInv, ha]; exact ⟨r.1, r.2.1, trivial, r.2.2.2.1, r.2.2.2.2⟩
     · simp at hs; subst hs
-      exact mk _ hp ha rfl rfl rfl rfl rfl rfl rfl rfl (by simpa [quiet] using q) (by simp [rejInv, ha, r])
+      refine mk _ hp ha rfl rfl rfl rfl rfl rfl rfl rfl (quiet_keep q rfl rfl rfl rfl rfl rfl rfl rfl rfl q.2.2.2.2.2.2.2.2.1 rfl) ?_
+      simp only [rejInv, ha]; exact ⟨r.1, r.2.1, r.2.2.1, by simp [r.2.2.2.1], r.2.2.2.2⟩
 
-theorem step_inv {s t : St} {e : Ev} (h : SInv s) (hs : step s e = some t) : SInv t := by
+/-- a session operation of the checker function leaves the gate's variables alone. -/
+theorem sinv_ck_keep {s t : St} (h : SInv s) (ha : s.acc = .checker)
+    (g1 : t.authPassed = s.authPassed) (g2 : t.acc = s.acc) (g3 : t.called = s.called) (g4 : t.exch = s.exch)
+    (g5 : t.recvLog = s.recvLog) (g6 : t.preRead = s.preRead) (_g7 : t.strict = s.strict)
+    (g8 : t.arrived = s.arrived) (g9 : t.loopRead = s.loopRead) (g10 : t.pending = s.pending)
+    (k1 : t.status = s.status) (k2 : t.closer = s.closer) (k3 : t.sockClosed = s.sockClosed)
+    (k4 : t.discHook = s.discHook) (hq : quiet t) : SInv t := by
+  have hnp := not_passed_of_checker h ha
+  have r := h.rej hnp
+  simp only [rejInv, ha] at r
+  refine ⟨by rw [g1, g2]; exact h.passed_iff, fun _ => hq, by rw [g4, g3]; exact h.exch_eq,
+    by rw [g6, g4]; exact h.pre_len, by rw [g8, g6, g9, g10]; exact h.conserve,
+    by rw [g3, g5]; exact h.log_called, by rw [g5, g6]; exact h.log_ok,
+    fun _ c => by rw [g2, ha] at c; simp [APc.accepting, APc.passed] at c, fun _ => ?_⟩
+  simp only [rejInv, g2, ha]
+  rw [k1, k2, k3, k4]; exact r
+
+theorem inv_setId {s t : St} {v : Nat} (h : SInv s) (hs : evSetId s v = some t) : SInv t := by
+  unfold evSetId at hs
+  split at hs
+  · simp at hs
+  · rename_i hacc
+    have ha : s.acc = .checker := by simpa using hacc
+    have q := h.quiet (not_passed_of_checker h ha)
+    split at hs
+    · simp at hs; subst hs
+      exact sinv_ck_keep h ha rfl rfl rfl rfl rfl rfl rfl rfl rfl rfl rfl rfl rfl rfl
+        (quiet_keep q rfl rfl rfl rfl rfl rfl rfl rfl rfl q.2.2.2.2.2.2.2.2.1 rfl)
+    · simp only at hs
+      have qr : ∀ u : St, u.handlerCount = s.handlerCount → u.hookCount = s.hookCount → u.prhCount = s.prhCount →
+          u.rd = s.rd → u.hs = s.hs → u.wantClose = s.wantClose → u.loopRead = s.loopRead → u.renamed = true →
+          u.status = s.status → u.out = s.out → quiet u := by
+        intro u h1 h2 h3 h4 h5 h6 h7 h8 h9 h10
+        simp only [quiet] at q ⊢
+        rw [h1, h2, h3, h4, h5, h6, h7, h8, h9, h10]
+        exact ⟨q.1, q.2.1, q.2.2.1, q.2.2.2.1, q.2.2.2.2.1, q.2.2.2.2.2.1, q.2.2.2.2.2.2.1, fun c => by simp at c,
+          q.2.2.2.2.2.2.2.2.1, q.2.2.2.2.2.2.2.2.2⟩
+      split at hs
+      · simp at hs; subst hs
+        exact sinv_ck_keep h ha (by simp) (by simp) (by simp) (by simp) (by simp) (by simp) (by simp) (by simp)
+          (by simp) (by simp) (by simp) (by simp) (by simp) (by simp)
+          (qr _ (by simp) (by simp) (by simp) (by simp) (by simp) (by simp) (by simp) (by simp) (by simp) (by simp))
+      · simp at hs; subst hs
+        exact sinv_ck_keep h ha rfl rfl rfl rfl rfl rfl rfl rfl rfl rfl rfl rfl rfl rfl
+          (qr _ rfl rfl rfl rfl rfl rfl rfl rfl rfl rfl)
+
+theorem inv_peek {s t : St} (h : SInv s) (hs : evPeek s = some t) : SInv t := by
+  unfold evPeek at hs
+  split at hs
+  · simp at hs
+  · rename_i hacc
+    have ha : s.acc = .checker := by simpa using hacc
+    have q := h.quiet (not_passed_of_checker h ha)
+    simp at hs; subst hs
+    exact sinv_ck_keep h ha rfl rfl rfl rfl rfl rfl rfl rfl rfl rfl rfl rfl rfl rfl
+      (quiet_keep q rfl rfl rfl rfl rfl rfl rfl rfl rfl q.2.2.2.2.2.2.2.2.1 rfl)
+
+theorem step_inv {s t : St} {e : Ev} (h : SInv s) (hh : HInv s) (hs : step s e = some t) : SInv t := by
   cases e with
+  | setId v => exact inv_setId h hs
+  | peek => exact inv_peek h hs
   | arrive i => exact inv_arrive h hs
   | cut => exact inv_cut h hs
   | recvOnce b => exact inv_recvOnce h hs
@@ -500,22 +836,107 @@ theorem step_inv {s t : St} {e : Ev} (h : SInv s) (hs : step s e = some t) : SIn
   | accStep => exact inv_accStep h hs
   | appClose => exact inv_appClose h hs
   | goClose => exact inv_goClose h hs
-  | closeStep => exact inv_closeStep h hs
+  | closeStep => exact inv_closeStep h hh hs
   | rdTop => exact inv_rdTop h hs
   | rdRead b => exact inv_rdRead h hs
   | rdDisc => exact inv_rdDisc h hs
   | hRun i => exact inv_hRun h hs
   | hReply i => exact inv_hReply h hs
 
-theorem reach_inv {s0 s : St} (h0 : SInv s0) (r : Reach s0 s) : SInv s := by
+/-- every event other than the checker's `SetID` keeps the id and touches the hub at most by
+    `hub.set(s)` / `hub.delete(s.ID(), s)`. -/
+theorem step_hub {s t : St} {e : Ev} (h : step s e = some t) (hne : ∀ v, e ≠ .setId v) :
+    t.sid = s.sid ∧ t.ids = s.ids ∧
+    (t.hub = s.hub ∨ t.hub = Lifecycle.AL.put s.hub s.sid 0 ∨ t.hub = Lifecycle.AL.delIf s.hub s.sid 0) := by
+  cases e <;>
+    simp only [step, evRecvOnce, evPeek, evCkReturn, evSendReply, evBranch, evAccStep, evAppClose, evGoClose,
+      evCloseStep, evRdTop, evRdRead, evRdDisc, evHRun, evHReply, startClose] at h <;>
+    (try exact absurd rfl (hne _)) <;>
+    (repeat' split at h) <;> (first | (simp at h; done) | (simp at h; subst h; simp))
+
+theorem step_hinv {s t : St} {e : Ev} (h : SInv s) (hh : HInv s) (hs : step s e = some t) : HInv t := by
+  by_cases he : ∃ v, e = .setId v
+  · obtain ⟨v, rfl⟩ := he
+    simp only [step] at hs
+    unfold evSetId at hs
+    split at hs
+    · simp at hs
+    · rename_i hacc
+      have ha : s.acc = .checker := by simpa using hacc
+      have r := h.rej (not_passed_of_checker h ha)
+      simp only [rejInv, ha] at r
+      split at hs
+      · simp at hs; subst hs; exact hinv_same hh rfl rfl rfl
+      · simp [r.1] at hs; subst hs
+        have := hinv_setId hh v (hubSet { s with sid := v, ids := s.ids ++ [v], nops := s.nops + 1, renamed := true }).kicked (s.nops + 1) true
+        refine ⟨?_, ?_, ?_⟩
+        · simpa using this.wf
+        · simpa using this.selfAt
+        · simp
+  · have hne : ∀ v, e ≠ .setId v := fun v c => he ⟨v, c⟩
+    obtain ⟨h1, h2, h3⟩ := step_hub hs hne
+    rcases h3 with h3 | h3 | h3
+    · exact hinv_same hh h3 h1 h2
+    · exact hinv_put hh h3 h1 h2
+    · exact hinv_delIf hh h3 h1 h2
+
+/-- one step changes the hub only under ids the connection has (had): entries under any other id
+    — other sessions of the peer — are left alone; the list of ids only grows. -/
+theorem step_frame {s t : St} {e : Ev} (h : SInv s) (hh : HInv s) (hs : step s e = some t) (id : Nat)
+    (hid : id ∉ t.ids) : id ∉ s.ids ∧ Lifecycle.AL.get t.hub id = Lifecycle.AL.get s.hub id := by
+  have hcur : s.sid ∈ s.ids := List.mem_of_getLast? hh.cur
+  by_cases he : ∃ v, e = .setId v
+  · obtain ⟨v, rfl⟩ := he
+    simp only [step] at hs
+    unfold evSetId at hs
+    split at hs
+    · simp at hs
+    · rename_i hacc
+      have ha : s.acc = .checker := by simpa using hacc
+      have r := h.rej (not_passed_of_checker h ha)
+      simp only [rejInv, ha] at r
+      split at hs
+      · simp at hs; subst hs; exact ⟨hid, rfl⟩
+      · simp [r.1] at hs; subst hs
+        simp at hid
+        have h1 : id ≠ s.sid := fun c => hid.1 (c ▸ hcur)
+        refine ⟨hid.1, ?_⟩
+        simp only []
+        rw [Lifecycle.AL.get_delIf_ne _ _ h1, Lifecycle.AL.get_put_ne _ _ hid.2]
+  · have hne : ∀ v, e ≠ .setId v := fun v c => he ⟨v, c⟩
+    obtain ⟨h1, h2, h3⟩ := step_hub hs hne
+    rw [h2] at hid
+    have hn : id ≠ s.sid := fun c => hid (c ▸ hcur)
+    refine ⟨hid, ?_⟩
+    rcases h3 with h3 | h3 | h3 <;> rw [h3]
+    · exact Lifecycle.AL.get_put_ne _ _ hn
+    · exact Lifecycle.AL.get_delIf_ne _ _ hn
+
+theorem reach_inv2 {s0 s : St} (h0 : SInv s0) (g0 : HInv s0) (r : Reach s0 s) : SInv s ∧ HInv s := by
   induction r with
-  | refl => exact h0
-  | step e _ hs ih => exact step_inv ih hs
+  | refl => exact ⟨h0, g0⟩
+  | step e _ hs ih => exact ⟨step_inv ih.1 ih.2 hs, step_hinv ih.1 ih.2 hs⟩
+
+theorem reach_inv {s0 s : St} (h0 : SInv s0) (g0 : HInv s0) (r : Reach s0 s) : SInv s :=
+  (reach_inv2 h0 g0 r).1
+
+theorem reach_hinv {s0 s : St} (h0 : SInv s0) (g0 : HInv s0) (r : Reach s0 s) : HInv s :=
+  (reach_inv2 h0 g0 r).2
+
+theorem reach_frame {s0 s : St} (h0 : SInv s0) (g0 : HInv s0) (r : Reach s0 s) (id : Nat) (hid : id ∉ s.ids) :
+    id ∉ s0.ids ∧ Lifecycle.AL.get s.hub id = Lifecycle.AL.get s0.hub id := by
+  induction r with
+  | refl => exact ⟨hid, rfl⟩
+  | step e r' hs ih =>
+    have i := reach_inv2 h0 g0 r'
+    have f := step_frame i.1 i.2 hs id hid
+    have g := ih f.1
+    exact ⟨g.1, f.2.trans g.2⟩
 
 /-- the two configuration fields are never written. -/
 theorem step_cfg {s t : St} {e : Ev} (h : step s e = some t) : t.strict = s.strict ∧ t.lis = s.lis := by
   cases e <;>
-    simp only [step, evRecvOnce, evCkReturn, evSendReply, evBranch, evAccStep, evAppClose, evGoClose,
+    simp only [step, evRecvOnce, evSetId, evPeek, evCkReturn, evSendReply, evBranch, evAccStep, evAppClose, evGoClose,
       evCloseStep, evRdTop, evRdRead, evRdDisc, evHRun, evHReply, startClose] at h <;>
     (repeat' split at h) <;> (first | (simp at h; done) | (simp at h; subst h; simp))
 
@@ -569,7 +990,7 @@ theorem runQ_reach (k : Script) (b : Bool) (n : Nat) (s : St) : Reach s (runQ k 
 
 /-- every state the harness-compared scheduler ends in is reachable in the transition system. -/
 theorem run_reach (c : Case) :
-    Reach (init c.lis (c.script.propagate && c.script.nrecv != 0)) (runCase c) := by
+    Reach (init c.lis (c.script.propagate && c.script.nrecv != 0) c.others) (runCase c) := by
   unfold runCase
   simp only
   have wake : ∀ s, Reach s (match wakeEv c.fin s with
